@@ -414,40 +414,40 @@ Proof. exact (group_local_sound_partial_sec d va n rho k1 vars1 vals1 k2 vars2 v
 
 (** * satisfiable hypotheses *)
 
-Definition nm (x : string) : name := of_string x.
-Definition num (z : Z) : expr := ENumber (NDec (to_bits (of_Z z)) None).
-Definition pa : param := Param (nm "a") None.
-Definition pb : param := Param (nm "b") None.
-Definition ext_call_a : expr := ECall (EIdent (nm "ext_a")) None (ATuple []).
-Definition ret_ab : option laststmt := Some (LReturn [EIdent (nm "a"); EIdent (nm "b")]).
-Definition ret_b : option laststmt := Some (LReturn [EIdent (nm "b")]).
-Definition st_example : store := initial_store [[ONum (to_bits (of_Z 7))]].
+Definition gl_nm (x : string) : name := of_string x.
+Definition gl_num (z : Z) : expr := ENumber (NDec (to_bits (of_Z z)) None).
+Definition gl_pa : param := Param (gl_nm "a") None.
+Definition gl_pb : param := Param (gl_nm "b") None.
+Definition gl_ext_call_a : expr := ECall (EIdent (gl_nm "ext_a")) None (ATuple []).
+Definition gl_ret_ab : option laststmt := Some (LReturn [EIdent (gl_nm "a"); EIdent (gl_nm "b")]).
+Definition gl_ret_b : option laststmt := Some (LReturn [EIdent (gl_nm "b")]).
+Definition gl_st_example : store := initial_store [[ONum (to_bits (of_Z 7))]].
 
 (** [local a = ext_a()  local b = 2  return a, b] with [ext_a] returning 7: the hypotheses of
     the theorem hold, and both programs end with the same signal in the same store *)
 Example group_local_example :
-  should_merge [pa] [ext_call_a] [num 2] = true /\
-  forallb (frame_simple []) [num 2] = true /\
-  (forall y c, lookup [] y = Some c -> (N.to_nat c < llen (cells st_example))%nat) /\
-  (forall k vs s1, eval_list L51 k [] [] [ext_call_a] st_example = Ok vs s1 ->
-                   (llen (cells st_example) <= llen (cells s1))%nat) /\
+  should_merge [gl_pa] [gl_ext_call_a] [gl_num 2] = true /\
+  forallb (frame_simple []) [gl_num 2] = true /\
+  (forall y c, lookup [] y = Some c -> (N.to_nat c < llen (cells gl_st_example))%nat) /\
+  (forall k vs s1, eval_list L51 k [] [] [gl_ext_call_a] gl_st_example = Ok vs s1 ->
+                   (llen (cells gl_st_example) <= llen (cells s1))%nat) /\
   exists s',
-    exec_stmts L51 12 [] [] [SLocal false [pa] [ext_call_a]; SLocal false [pb] [num 2]] ret_ab st_example
+    exec_stmts L51 12 [] [] [SLocal false [gl_pa] [gl_ext_call_a]; SLocal false [gl_pb] [gl_num 2]] gl_ret_ab gl_st_example
     = Ok (SigReturn [VNum (of_Z 7); VNum (of_Z 2)]) s' /\
-    exec_stmts L51 12 [] [] [SLocal false ([pa] ++ [pb]) (merge_values [pa] [ext_call_a] [pb] [num 2])] ret_ab st_example
+    exec_stmts L51 12 [] [] [SLocal false ([gl_pa] ++ [gl_pb]) (merge_values [gl_pa] [gl_ext_call_a] [gl_pb] [gl_num 2])] gl_ret_ab gl_st_example
     = Ok (SigReturn [VNum (of_Z 7); VNum (of_Z 2)]) s' /\
-    trace s' = [EvCall (nm "ext_a") []].
+    trace s' = [EvCall (gl_nm "ext_a") []].
 Proof.
   split; [reflexivity|]. split; [reflexivity|]. split; [intros y c Hy; discriminate Hy|].
-  split; [intros k vs s1 _; cbn [st_example initial_store cells List.length]; lia|].
+  split; [intros k vs s1 _; cbn [gl_st_example initial_store cells List.length]; lia|].
   eexists. split; [vm_compute; reflexivity|]. split; vm_compute; reflexivity.
 Qed.
 
 (** * exact equality is not available for arbitrary second initialisers *)
 
-Definition id_call (e : expr) : expr :=
-  ECall (EParen (EFunction (FBody [Param (nm "p") None] false None None None 0
-                                  (Block [] (Some (LReturn [EIdent (nm "p")])))))) None (ATuple [e]).
+Definition gl_id_call (e : expr) : expr :=
+  ECall (EParen (EFunction (FBody [Param (gl_nm "p") None] false None None None 0
+                                  (Block [] (Some (LReturn [EIdent (gl_nm "p")])))))) None (ATuple [e]).
 
 (** [local a = 1  local b = (function(p) return p end)(2)  return a, b]: the guard accepts, both
     programs return [1, 2], but the call allocates the cell of [p] - after the cell of [a] in the
@@ -465,7 +465,7 @@ Theorem group_local_exact_refuted_call :
     cells s2 = [VNum (of_Z 2); VNum (of_Z 1); VNum (of_Z 2)] /\
     s1 <> s2.
 Proof.
-  exists L51, [], [], [pa], [num 1], [pb], [id_call (num 2)], ret_ab, (initial_store []).
+  exists L51, [], [], [gl_pa], [gl_num 1], [gl_pb], [gl_id_call (gl_num 2)], gl_ret_ab, (initial_store []).
   do 3 eexists.
   split; [reflexivity|]. split; [intros y c Hy; discriminate Hy|].
   split; [vm_compute; reflexivity|]. split; [vm_compute; reflexivity|].
@@ -487,7 +487,7 @@ Theorem group_local_unguarded_refuted :
     run_chunk dl 12 [] (Block [SLocal false (vars1 ++ vars2) (merge_values vars1 vals1 vars2 vals2)] last)
     = OutOk [] [RNum (to_bits (of_Z 2))].
 Proof.
-  exists L51, [pa], [num 1; num 2], [pb], [num 3], ret_b.
+  exists L51, [gl_pa], [gl_num 1; gl_num 2], [gl_pb], [gl_num 3], gl_ret_b.
   split; [reflexivity|]. split; [reflexivity|]. split; vm_compute; reflexivity.
 Qed.
 
@@ -503,7 +503,7 @@ Theorem group_local_mention_refuted :
     run_chunk dl 12 [] (Block [SLocal false (vars1 ++ vars2) (merge_values vars1 vals1 vars2 vals2)] last)
     = OutOk [] [RNil].
 Proof.
-  exists L51, [pa], [num 1], [pb], [EIdent (nm "a")], ret_b.
+  exists L51, [gl_pa], [gl_num 1], [gl_pb], [EIdent (gl_nm "a")], gl_ret_b.
   split; [reflexivity|]. split; [reflexivity|]. split; vm_compute; reflexivity.
 Qed.
 
